@@ -272,6 +272,9 @@ func (r *c09Replica) digest() string {
 	err := r.fsm.getDB().View(func(tx *bolt.Tx) error {
 		c := tx.Bucket(dataBucketName).Cursor()
 		for k, v := c.First(); k != nil; k, v = c.Next() {
+			if bytes.HasPrefix(k, []byte("raftchunking/")) {
+				continue // in-flight chunks of the chunking FSM (kept in the same bucket): not key/value state
+			}
 			parts = append(parts, vh.Hex(k)+"="+vh.Hex(v))
 		}
 		return nil
